@@ -1,6 +1,7 @@
 package main
 
 import (
+	"go/token"
 	"go/types"
 	"strings"
 
@@ -12,12 +13,13 @@ func init() { register("C15", propC15) }
 func propC15() *Property {
 	return &Property{
 		ID:         "C15",
-		Decides:    "R15.1 the stored session deadlines are written only by the three deadline setters (so a deadline bounds every later Read/Write until changed); R15.2 every close() of a lifecycle channel is guarded by a winning CAS / done-check under the owner's mutex / sync.Once (repeatable Close, no double-close panic); R15.3 every blocking channel operation in the session/underlay/mux code selects on a shutdown channel of its owner; R15.4 underlay Close pokes blocked network I/O (past deadline) before closing sessions, under closeMutex after the done check.",
+		Decides:    "R15.1 the stored session deadlines are written only by the three deadline setters (so a deadline bounds every later Read/Write until changed); R15.2 every close() of a lifecycle channel is guarded by a winning CAS / done-check under the owner's mutex / sync.Once (repeatable Close, no double-close panic); R15.3 every blocking channel operation in the session/underlay/mux code selects on a shutdown channel of its owner; R15.4 underlay Close pokes blocked network I/O (past deadline) before closing sessions, under closeMutex after the done check; on a stream connection (net.Conn) the poke must release blocked writes as well, because the output loop can be parked in conn.Write while holding the lock Session.Close needs; R15.5 after RunEventLoop returns - with nil, EOF, closed or any error - the goroutine that ran it calls underlay.Close() on every path.",
 		NotDecided: "promptness in seconds, goroutine counts at run time, data-race freedom in general, schedules.",
 		Rules: []Rule{
 			{ID: "R15.1", Floor: 3, Text: "every store to Session.readDeadline / Session.writeDeadline is in SetDeadline, SetReadDeadline or SetWriteDeadline", Run: r15_1},
 			{ID: "R15.2", Floor: 8, Text: "every close(ch) of a struct-field channel in pkg/protocol, apis/client, apis/server is dominated by a winning CompareAndSwap, a sync.Once, or a closed-check of the same channel under a held mutex", Run: r15_2},
 			{ID: "R15.3", Floor: 10, Text: "every blocking select/send/receive in pkg/protocol (session, underlay, mux) has a shutdown alternative (closedChan, done, ctx.Done, timer) or a default case", Run: r15_3},
+			{ID: "R15.5", Floor: 2, Text: "after RunEventLoop returns, for whatever reason, the goroutine that ran it closes the underlay on every path", Run: r15_5},
 			{ID: "R15.4", Floor: 2, Text: "StreamUnderlay.Close and PacketUnderlay.Close: closeMutex held, done checked, conn.Set(Read)Deadline called before baseUnderlay.Close", Run: r15_4},
 		},
 	}
@@ -297,8 +299,14 @@ func r15_3(c *RC) {
 					c.OK(key, x.Pos(), "non-blocking select (default case)")
 					return
 				}
+				names := shutdownNames
+				if of := outermost(fn); of.Signature.Recv() != nil && strings.HasSuffix(of.Signature.Recv().Type().String(), "protocol.Session") {
+					// Session.Close closes closedChan, nothing else: the error
+					// channels do not fire on a plain Close.
+					names = map[string]bool{"closedChan": true, "done": true}
+				}
 				for _, st := range x.States {
-					if isShutdownChan(st.Chan, shutdownNames) {
+					if isShutdownChan(st.Chan, names) {
 						c.OKH(key, x.Pos(), "blocking select has shutdown alternative %s", describe(st.Chan))
 						return
 					}
@@ -352,6 +360,16 @@ func r15_4(c *RC) {
 			continue
 		}
 		var lock, poke, base, donePoll ssa.Instruction
+		pokeR, pokeW := false, false
+		// A stream connection (net.Conn) can block in Write under
+		// back-pressure while the output loop holds the session's output
+		// lock, which Session.Close needs: the poke must release writes too.
+		needW := false
+		if f := c.P.Field("pkg/protocol", tn, "conn"); f != nil {
+			if nt, ok := f.Type().(*types.Named); ok && nt.Obj().Name() == "Conn" {
+				needW = true
+			}
+		}
 		instrs(fn, func(_ *ssa.BasicBlock, _ int, in ssa.Instruction) {
 			if cl, ok := in.(ssa.CallInstruction); ok {
 				if _, isDefer := in.(*ssa.Defer); isDefer {
@@ -363,9 +381,17 @@ func r15_4(c *RC) {
 					if f := fieldOrigin(callArgs(cl)[0]); f != nil && f.Name() == "closeMutex" && lock == nil {
 						lock = in
 					}
-				case strings.HasSuffix(id, ".SetDeadline") || strings.HasSuffix(id, ".SetReadDeadline"):
-					if f := fieldOrigin(callArgs(cl)[0]); f != nil && f.Name() == "conn" && poke == nil {
-						poke = in
+				case strings.HasSuffix(id, ".SetDeadline") || strings.HasSuffix(id, ".SetReadDeadline") || strings.HasSuffix(id, ".SetWriteDeadline") || strings.HasSuffix(id, "Conn.Close"):
+					if f := fieldOrigin(callArgs(cl)[0]); f != nil && f.Name() == "conn" {
+						if !strings.HasSuffix(id, ".SetWriteDeadline") {
+							pokeR = true
+							if poke == nil {
+								poke = in
+							}
+						}
+						if !strings.HasSuffix(id, ".SetReadDeadline") {
+							pokeW = true
+						}
 					}
 				case strings.HasSuffix(id, "protocol.baseUnderlay).Close"):
 					base = in
@@ -389,8 +415,12 @@ func r15_4(c *RC) {
 			c.Bad(key, fn.Pos(), "%s.Close: the done channel is not polled before baseUnderlay.Close (repeat Close would double-close)", tn)
 		case poke == nil || !instrDominates(poke, base):
 			c.Bad(key, fn.Pos(), "%s.Close: conn.Set(Read)Deadline(now) does not precede baseUnderlay.Close: the event loop blocked in a network read is not released before the sessions are waited for", tn)
+		case !pokeR:
+			c.Bad(key, fn.Pos(), "%s.Close releases no blocked read before waiting for the sessions", tn)
+		case needW && !pokeW:
+			c.Bad(key, fn.Pos(), "%s.Close releases only blocked reads: on a stream connection the output loop can be parked in conn.Write (peer stopped reading) while holding the session output lock that Session.Close needs, so Close never returns", tn)
 		default:
-			c.OKH(key, fn.Pos(), "closeMutex.Lock ≺ done poll ≺ conn deadline poke ≺ baseUnderlay.Close (dominance)")
+			c.OKH(key, fn.Pos(), "closeMutex.Lock ≺ done poll ≺ conn deadline poke (read%s) ≺ baseUnderlay.Close (dominance)", map[bool]string{true: "+write", false: ""}[pokeW])
 		}
 	}
 }
@@ -512,4 +542,72 @@ func refusesSecondAdmission(f *ssa.Function) bool {
 		}
 	})
 	return ok
+}
+
+
+// r15_5: every goroutine that runs an underlay's event loop closes that
+// underlay when the loop returns, whatever it returned: a peer that went away
+// (EOF, closed, nil) must still release the sessions blocked on it.
+func r15_5(c *RC) {
+	p := c.P
+	n := 0
+	for _, fn := range p.Funcs("pkg/protocol") {
+		instrs(fn, func(_ *ssa.BasicBlock, _ int, in ssa.Instruction) {
+			cl, ok := in.(*ssa.Call)
+			if !ok || !cl.Call.IsInvoke() || cl.Call.Method.Name() != "RunEventLoop" {
+				return
+			}
+			if strings.HasSuffix(strings.SplitN(p.Pos(in.Pos()), ":", 2)[0], "_test.go") {
+				return
+			}
+			n++
+			recv := cl.Call.Value
+			isClose := func(x ssa.Instruction) bool {
+				xc, ok := x.(ssa.CallInstruction)
+				if !ok || !xc.Common().IsInvoke() || xc.Common().Method.Name() != "Close" {
+					return false
+				}
+				return sameRoot(xc.Common().Value, recv)
+			}
+			key := "event-loop-exit-closes@" + fnName(outermost(fn))
+			// deferred Close counts
+			deferred := false
+			instrs(fn, func(_ *ssa.BasicBlock, _ int, x ssa.Instruction) {
+				if d, ok := x.(*ssa.Defer); ok && isClose(d) && instrDominates(x, in) {
+					deferred = true
+				}
+			})
+			if deferred {
+				c.OKH(key, in.Pos(), "underlay.Close() is deferred before the event loop starts")
+				return
+			}
+			hit := reachableAvoiding(fn, in, isReturn, func(x ssa.Instruction) bool {
+				if _, d := x.(*ssa.Defer); d {
+					return false
+				}
+				return isClose(x)
+			})
+			if hit == nil {
+				c.OKH(key, in.Pos(), "every path from RunEventLoop's return to the end of the goroutine passes underlay.Close()")
+			} else {
+				c.Bad(key, in.Pos(), "after RunEventLoop returns the goroutine can end at %s without closing the underlay: when the peer goes away (EOF / closed / nil) the sessions on it are never closed and their blocked Read/Write hang", p.Pos(hit.Pos()))
+			}
+		})
+	}
+	if n == 0 {
+		c.Undecided("event-loop-exit-closes", token.NoPos, "no RunEventLoop call found")
+	}
+}
+
+// sameRoot: two values load the same variable (free variable cell, alloc) or are identical.
+func sameRoot(a, b ssa.Value) bool {
+	if a == b {
+		return true
+	}
+	ua, ok1 := a.(*ssa.UnOp)
+	ub, ok2 := b.(*ssa.UnOp)
+	if ok1 && ok2 && ua.Op == token.MUL && ub.Op == token.MUL {
+		return ua.X == ub.X
+	}
+	return false
 }
